@@ -443,6 +443,12 @@ func (f *c03Flow) varSrc(fi *FuncInfo, o *types.Var, s *c03Sum, seen map[types.O
 			}
 		case *ast.UnaryExpr:
 			if x.Op == token.AND && isO(x.X) {
+				// `&o` handed to a function of the package that only stores through it
+				// (`defer p.stopAndRecover(&tree, &err)`): what it stores is a source of o
+				if f.throughPointerParam(owner, x, s, seen) {
+					found = true
+					break
+				}
 				f.add(s, owner, "unknown", "unknown:address of "+o.Name()+" taken", nil, nil, x.Pos())
 			}
 		case *ast.TypeSwitchStmt:
@@ -1379,15 +1385,32 @@ func (x *c03) ruleRecovers() {
 				cons += "@nested"
 			}
 			o := r.Ob(R, cons, c.Pos())
-			if lit == nil {
-				o.Unknown("recover() outside a function literal: shape not understood")
-				continue
-			}
-			if why, ok := c03RecoverExceptions[cons]; ok {
+			if why, ok := c03RecoverExceptions[cons]; ok && lit != nil {
 				o.Trivial("listed exception: %s", why)
 				continue
 			}
-			x.checkHandler(o, fi, lit, c)
+			if lit == nil {
+				// a handler written as a named function: every call of it must be a deferred call
+				ncalls, deferred := 0, true
+				for _, g := range fis {
+					gpar := r.P.Parents(g.File)
+					for _, gc := range calls(g.Decl.Body, true) {
+						if callee(f.info, gc) == fi.Obj {
+							ncalls++
+							if _, isDefer := gpar[ast.Node(gc)].(*ast.DeferStmt); !isDefer {
+								deferred = false
+							}
+						}
+					}
+				}
+				if ncalls == 0 || !deferred {
+					o.Unknown("recover() in the body of %s, which is not (only) called in defer statements: shape not understood", fi.Name())
+					continue
+				}
+				x.checkHandler(o, fi, fi.Decl.Body, c)
+				continue
+			}
+			x.checkHandler(o, fi, lit.Body, c)
 		}
 	}
 	r.Stats["recover_handlers"] = n
@@ -1396,10 +1419,10 @@ func (x *c03) ruleRecovers() {
 // checkHandler decides that the handler `lit` leaves normally only (a) with a nil recovered value or (b)
 // after storing the value, asserted to an implementer of compiler.Error, into an error variable of the
 // enclosing function.
-func (x *c03) checkHandler(o *Obl, fi *FuncInfo, lit *ast.FuncLit, rc *ast.CallExpr) {
+func (x *c03) checkHandler(o *Obl, fi *FuncInfo, body *ast.BlockStmt, rc *ast.CallExpr) {
 	f := x.flow
 	info := f.info
-	c := x.r.P.CFG(info, fi.File, lit.Body)
+	c := x.r.P.CFG(info, fi.File, body)
 	par := x.r.P.Parents(fi.File)
 	// the variable bound to recover(), if any
 	var rv types.Object
@@ -1419,7 +1442,7 @@ func (x *c03) checkHandler(o *Obl, fi *FuncInfo, lit *ast.FuncLit, rc *ast.CallE
 		// recover() != x used directly as a condition
 		bindStmt = nil
 	}
-	asserts := c03Asserts(info, lit.Body)
+	asserts := c03Asserts(info, body)
 	// ok-objects and value objects of assertions of rv to implementers of compiler.Error
 	var convs []*c03Assert
 	for _, a := range asserts {
@@ -1461,8 +1484,18 @@ func (x *c03) checkHandler(o *Obl, fi *FuncInfo, lit *ast.FuncLit, rc *ast.CallE
 			return false
 		}
 		for i, l := range as.Lhs {
+			errT := types.Universe.Lookup("error").Type()
 			lo, ok := c03ObjOf(info, l).(*types.Var)
-			if !ok || !types.Identical(lo.Type(), types.Universe.Lookup("error").Type()) {
+			isErrVar := ok && types.Identical(lo.Type(), errT)
+			// `*perr = e` in a handler that is a named function given the address of the error result
+			if st, isStar := ast.Unparen(l).(*ast.StarExpr); isStar {
+				if po, ok := c03ObjOf(info, st.X).(*types.Var); ok {
+					if pt, ok := po.Type().(*types.Pointer); ok && types.Identical(pt.Elem(), errT) {
+						isErrVar = true
+					}
+				}
+			}
+			if !isErrVar {
 				continue
 			}
 			if len(as.Rhs) != len(as.Lhs) {
@@ -1520,7 +1553,7 @@ func (x *c03) checkHandler(o *Obl, fi *FuncInfo, lit *ast.FuncLit, rc *ast.CallE
 				}
 			}
 			if swallow == token.NoPos {
-				swallow = lit.Body.Rbrace
+				swallow = body.Rbrace
 			}
 			return
 		}
